@@ -94,6 +94,7 @@ func RunOne(w Workload, s *scn.Scn, replay, keepTrace bool) *Exec {
 	needDry := len(s.Phases) > 0 && !s.NoDryRun
 	_ = replay
 	var steps []int64
+	var dryLogs [][]ClientLog
 	if needDry {
 		d := NewExec(s)
 		d.Dry = true
@@ -107,11 +108,13 @@ func RunOne(w Workload, s *scn.Scn, replay, keepTrace bool) *Exec {
 			return d
 		}
 		steps = d.PhaseStep
+		dryLogs = d.AllLogs
 	}
 	x := NewExec(s)
 	x.Replay = replay
 	x.KeepTrace = keepTrace
 	x.PhaseStep = steps
+	x.DryLogs = dryLogs
 	curExec = x
 	before := raceErrors()
 	SetMapSeed(s.MapSeed | 1)
@@ -269,8 +272,14 @@ func WorkerMain() {
 			os.Exit(0)
 		}
 		x := RunOne(w, s, false, *trace)
+		x.Out.Tapes = x.Tapes
 		if *out != "" {
 			writeJSON(*out, x.Out)
+		}
+		if *save != "" && x.Out.Violation != nil {
+			x.FinalizeTapes()
+			s.Expect = x.Out.Violation
+			s.Save(*save)
 		}
 		if *trace {
 			for _, l := range x.Out.Trace {
@@ -404,10 +413,21 @@ func WorkerMain() {
 			xx.FinalizeTapes()
 			y := RunOne(w, c, false, false)
 			res.DetChecks++
-			if y.Out.TraceHash != x.Out.TraceHash || (y.Out.Violation != nil) {
+			if y.Out.Violation != nil {
+				// the second execution of the same scenario exposed a violation
+				// (e.g. a race the detector only caught this time): report it
+				y.FinalizeTapes()
+				c.Expect = y.Out.Violation
+				c.Save(violFile)
+				res.Violation = y.Out.Violation
+				res.ViolSeed = seed
+				res.ViolFile = violFile
+				finish(1)
+			}
+			if y.Out.TraceHash != x.Out.TraceHash {
 				res.DetFailures++
 				c.Save(fmt.Sprintf("%s/nondet-%d.json", *out, *offset))
-				res.Infra = fmt.Sprintf("determinism self-test failed for seed %d: generated run trace %016x, tape replay trace %016x (violation on replay: %v)", seed, x.Out.TraceHash, y.Out.TraceHash, y.Out.Violation)
+				res.Infra = fmt.Sprintf("determinism self-test failed for seed %d: generated run trace %016x, tape replay trace %016x", seed, x.Out.TraceHash, y.Out.TraceHash)
 				finish(2)
 			}
 		}
